@@ -587,7 +587,7 @@ def check_c13(tier, seed, replay=None):
 
 # =============================================================================== C16 / C17
 def fmt_known(items, txt):
-    """which of the four known formatter defects can this text trigger"""
+    """which of the four formatter defects of the first rounds this text could trigger (all repaired: none is a listed finding any more, so a recurrence alarms)"""
     keys = []
     if re.search(r"\bimport\b", txt):
         keys.append(("C16/import-lines-dropped", "Format has no case for import: the lines are deleted from the output"))
@@ -605,9 +605,10 @@ def check_fmt(pid, tier, seed, replay=None):
             "Format must terminate without error; " +
             ("ReadFile(Format(x)) must be accepted and equal ReadFile(x) with doc comments erased" if pid == "C16" else "Format(Format(x)) must equal Format(x) byte for byte") +
             "; the extracted formatter model's output is compared byte for byte on every text; distinct = distinct texts")
-    run, broken = base_run(pid, tier, seed, rule, "props/%s.v" % pid, ["%s_refuted" % pid] + (["C16_partial"] if pid == "C16" else []))
-    run.cov["explanation"] = ("the full statement is false of the code and of the faithful model: the theorem is its refutation (%s_refuted, coq/props/%s.v) with the committed known findings as "
-                              "witnesses, each replayed on the implementation by this run; every other accepted text is decided by the differential run against the formatter model" % (pid, pid))
+    run, broken = base_run(pid, tier, seed, rule, "props/%s.v" % pid, ["%s_partial" % pid])
+    run.cov["explanation"] = ("partial: proved are that Format panics on no input and the instances of the statement on the four texts that were mangled before the formatter was repaired "
+                              "(%s_partial, coq/props/%s.v); the general statement needs the inversion of the tokenizer on the formatter's output and is decided by this run: "
+                              "the property evaluated on the implementation, and the formatter model compared byte for byte" % (pid, pid))
     rng = SplitMix64(seed).fork("FMT")
     n = 700 if tier == "thorough" else 180
     texts = []
@@ -619,7 +620,7 @@ def check_fmt(pid, tier, seed, replay=None):
             texts.append((items, t))
         # end-of-line comments after fields / members / headers (not a layout C11's expected dump covers: comment attachment is compared with the model only)
         texts.append((items, frontgen.decorate(frontgen.render(items, frontgen.Layout(canonical=True)), rng)))
-    # the first four are the witnesses of the refutation theorems (front/FmtFacts.v)
+    # the first four are the texts that were mangled before the repairs (front/FmtFacts.v proves the instances on the model)
     for extra in ["enum E : uint8 { A = 1; }\n", "import \"a.bop\"\nstruct A { int32 a; }\n", "[flags]\nenum F { A = 1; B = A | 2; }\n",
                   "struct A { int32[][] grid; }\n", "struct A { array[array[int32]] g; map[string, map[int32, string[]]] m; }\n"]:
         texts.append(([], extra))
